@@ -31,12 +31,33 @@ def configs(tier):
     return out
 
 
+def reachable(stream, name, target, lo=250., hi=500.):
+    """The quantifier of C02 ("every reachable target ... between the stream's values at the ends of that temperature
+    range"), decided independently of the solvers under contract: bisection of property(T) = target on [250, 500] K on a
+    copy.  With an equation of state the liquid root disappears above some T and H(T) jumps to the vapour branch; a target
+    inside the jump is not the enthalpy of any temperature and is outside the quantifier."""
+    c = stream.copy()
+    f = lambda T: (setattr(c, 'T', T), getattr(c, name))[1] - target
+    try:
+        flo, fhi = f(lo), f(hi)
+    except Exception:
+        return False
+    if not (flo <= 0. <= fhi): return False
+    for _ in range(60):
+        mid = 0.5 * (lo + hi)
+        try: fm = f(mid)
+        except Exception: return False
+        if fm <= 0.: lo = mid
+        else: hi = mid
+    return abs(f(lo)) <= 1e-3 + 1e-6 * abs(target) or abs(f(hi)) <= 1e-3 + 1e-6 * abs(target)
+
+
 @group('C02/B_real_solvers', configs=configs, mode='B',
        functions=['thermosteam.mixture.mixture:Mixture.solve_T_at_HP', 'thermosteam.mixture.mixture:Mixture.solve_T_at_SP',
                   'thermosteam._stream:Stream.H (setter)', 'thermosteam._stream:Stream.S (setter)', 'thermosteam._stream:Stream.mix_from',
                   'thermosteam._stream:Stream.separate_out'],
        notes='real Aitken/secant solvers and real property models: {ideal, Peng-Robinson EOS} mixture x phase l/g x T grid x P grid x compositions of Water/Ethanol/Propane; '
-             'read-back within 1e-6 relative (+1e-3 absolute), T unchanged within 1e-4 K when the current value is assigned; calls that raise are skipped')
+             'read-back within 1e-6 relative (+1e-3 absolute), T unchanged within 1e-4 K when the current value is assigned; calls that raise and targets that no temperature in 250-500 K attains (bisection on a copy) are skipped')
 def real_solvers(w, cfg):
     ch = _chemicals()
     mixture = None if cfg['pkg'] == 'ideal' else tmo.PRMixture.from_chemicals(ch)
@@ -53,6 +74,7 @@ def real_solvers(w, cfg):
             setattr(s, name, getter())       # assigning the current value
             w.ensure(f'assigning the current {name} leaves T unchanged', abs(s.T - T0) <= 1e-4, T_before=T0, T_after=s.T)
             target = getter() + delta
+            if not reachable(s, name, target): s.T = T0; continue
             setattr(s, name, target)
         except Exception:
             s.T = T0
@@ -62,7 +84,8 @@ def real_solvers(w, cfg):
     # mixing with energy balance and separating out, same package
     try:
         a = tmo.Stream(None, T=cfg['T'], P=cfg['P'], phase=cfg['phase'], **flows)
-        b = tmo.Stream(None, T=cfg['T'] + 25., P=cfg['P'] * 1.5, phase=cfg['phase'], Water=3., Ethanol=4.)
+        Tb = cfg['T'] + 25. if cfg['T'] + 25. <= 500. else cfg['T'] - 25.     # both inlets inside 250-500 K
+        b = tmo.Stream(None, T=Tb, P=cfg['P'] * 1.5, phase=cfg['phase'], Water=3., Ethanol=4.)
         Q = 1.5e4
         H_in = a.H + b.H + Q
         m = tmo.Stream(None, phase=cfg['phase'])
@@ -70,7 +93,8 @@ def real_solvers(w, cfg):
         Hm = m.H
     except Exception:
         return
-    w.ensure('mix_from: H = sum of inlet H + Q', close(Hm, H_in), got=Hm, expected=H_in)
+    if reachable(m, 'H', H_in):
+        w.ensure('mix_from: H = sum of inlet H + Q', close(Hm, H_in), got=Hm, expected=H_in)
     w.ensure('mix_from: P = lowest inlet pressure', m.P == min(a.P, b.P))
     try:
         H_diff = m.H - b.H
@@ -78,4 +102,5 @@ def real_solvers(w, cfg):
         Hs = m.H
     except Exception:
         return
-    w.ensure('separate_out: H = H - H(other)', close(Hs, H_diff), got=Hs, expected=H_diff)
+    if reachable(m, 'H', H_diff):
+        w.ensure('separate_out: H = H - H(other)', close(Hs, H_diff), got=Hs, expected=H_diff)
